@@ -2,6 +2,7 @@ package log
 
 import (
 	"errors"
+	"io"
 	"time"
 )
 
@@ -68,11 +69,28 @@ func H_C19_rolling() {
 	vReach("end")
 }
 
-type vFailSink struct{ n int }
+type vFailSink struct {
+	n    int
+	mode int // 0 error, 1 (0, nil), 2 (0, io.ErrShortWrite), 3 half the bytes and nil
+}
 
-func (s *vFailSink) Write(b []byte) (int, error) { s.n++; return 0, errors.New("sink failure") }
+func (s *vFailSink) Write(b []byte) (int, error) {
+	s.n++
+	if s.n > 1000 {
+		panic("sink called more than 1000 times for two writes: the appender does not return")
+	}
+	switch s.mode {
+	case 1:
+		return 0, nil
+	case 2:
+		return 0, io.ErrShortWrite
+	case 3:
+		return len(b) / 2, nil
+	}
+	return 0, errors.New("sink failure")
+}
 
-// H_C19_others: file appender whose Start failed or whose file is closed, console appender with a failing stream.
+// H_C19_others: file appender whose Start failed or whose file is closed, console appender with a stream that fails, makes no progress ((0, nil) or (0, io.ErrShortWrite)) or writes short.
 func H_C19_others() {
 	root := vFSRoot()
 	defer vFSCleanup()
@@ -99,13 +117,13 @@ func H_C19_others() {
 		fa.Stop()
 	case 2: // console stream fails
 		saved := Stdout
-		sink := &vFailSink{}
+		sink := &vFailSink{mode: vChoose("sinkMode", 4)}
 		Stdout = sink
 		ca := &ConsoleAppender{Layout: lay}
 		ca.Append(e)
 		ca.Write([]byte("x"))
 		Stdout = saved
-		vAssert(sink.n == 2, "console-appender-attempts-each-write")
+		vAssert(sink.n >= 2, "console-appender-attempts-each-write")
 	default: // rolling appender whose directory is missing from the start
 		ra := &RollingFileAppender{Layout: lay, FileDir: dir, FileName: "r", Rotation: TimeRotation{Interval: time.Second}, MaxAge: 1}
 		err := ra.Start()
